@@ -15,9 +15,9 @@ import itertools
 from .core import hexs
 
 NAMES = ["a", "b", "c", "libfoo", "x-1", "z9+"]
-VERSIONS = ["1", "2.0", "1.0-1", "1~rc1", "0.19.0"]
+VERSIONS = ["1", "2.0", "1.0-1", "1~rc1", "0.19.0", "1:2.0", "2:1.0-1"]
 QUALS = ["any", "amd64", "native"]
-ARCHS = ["amd64", "i386", "linux-any", "arm64"]
+ARCHS = ["amd64", "i386", "linux-any", "arm64", "!hurd-i386", "!armel"]
 PROFILES = ["nocheck", "cross", "stage1"]
 VCS = ["ge", "le", "eq", "gt", "lt"]
 VC_TEXT = {"ge": ">=", "le": "<=", "eq": "=", "gt": ">>", "lt": "<<"}
@@ -60,7 +60,7 @@ def render_rel(r, rng=None, canonical=False):
     if r["qual"] is not None:
         s += (w() if not canonical else "") + ":" + (w() if not canonical else "") + r["qual"]
     if r["ver"] is not None:
-        s += (" " if canonical else w()) + "(" + w() + VC_TEXT[r["ver"][0]] + (" " if canonical else w()) + r["ver"][1] + ")"
+        s += (" " if canonical else w()) + "(" + w() + VC_TEXT[r["ver"][0]] + (" " if canonical else w()) + r["ver"][1] + w() + ")"
     if r["archs"] is not None:
         s += (" " if canonical else w()) + "[" + w() + " ".join(r["archs"]) + w() + "]"
     for g in r["profs"]:
@@ -93,10 +93,11 @@ def rel_spec(r, how, rng=None):
     if how == "b":
         k = 0 if rng is None else rng.randrange(len(r["profs"]) + 1)
         return "~".join(["b", hexs(r["name"]), ver_spec(r["ver"]), "-" if r["qual"] is None else hexs(r["qual"]),
-                         strs_spec(r["archs"] or []), groups_spec(r["profs"][:k]), groups_spec(r["profs"][k:])])
+                         "-" if r["archs"] is None else ("_" if not r["archs"] else strs_spec(r["archs"])),
+                         groups_spec(r["profs"][:k]), groups_spec(r["profs"][k:])])
     if how == "l":
         return "~".join(["l", hexs(r["name"]), ver_spec(r["ver"]), "-" if r["qual"] is None else hexs(r["qual"]),
-                         "!" if r["archs"] is None else strs_spec(r["archs"]), groups_spec(r["profs"])])
+                         "!" if r["archs"] is None else ("_" if not r["archs"] else strs_spec(r["archs"])), groups_spec(r["profs"])])
     raise ValueError(how)
 
 def rel_hows(r):
@@ -105,7 +106,6 @@ def rel_hows(r):
     if r["qual"] is None and r["archs"] is None and not r["profs"]:
         hows.append("n")
         if r["ver"] is None: hows.append("s")
-    if r["archs"] == []: hows = [h for h in hows if h not in ("b",)]   # builder: empty list = no list
     return hows
 
 def entry_spec(rels, how, rng=None, rel_how=None):
